@@ -36,6 +36,7 @@ func verifC08Raw() {
 	c, err := NewConn(context.Background(), tr, opts...)
 	if err != nil {
 		vReach("newconn-error")
+		vC08Refused(c)
 		return
 	}
 	vReach("newconn-ok")
@@ -63,10 +64,28 @@ func verifC08Ext() {
 	c, err := NewConn(context.Background(), tr, WithKeys(vC08Key()))
 	if err != nil {
 		vReach("newconn-error")
+		vC08Refused(c)
 		return
 	}
 	vReach("newconn-ok")
 	vC08Reads(c, 2)
+}
+
+// vC08Refused: what a caller may still do with the outcome of a failed NewConn -
+// log through the accessors, Read, Write, Close - never panics; the watcher
+// goroutine of the failed call has gone.
+func vC08Refused(c *Conn) {
+	vAssert(vQuiesce() == 0, "a failed NewConn leaves no goroutine behind")
+	_ = c.ServerName()
+	_ = c.ALPNProtos()
+	_ = c.ECHPresented()
+	vAssert(!c.ECHAccepted(), "a failed NewConn is not an accepted one")
+	if c != nil {
+		buf := make([]byte, 8)
+		_, _ = c.Read(buf)
+		_, _ = c.Write(nil)
+		_ = c.Close()
+	}
 }
 
 func vC08Reads(c *Conn, k int) {
@@ -158,6 +177,13 @@ func verifC08WriteArmed() {
 		vAssert(m >= 0 && m <= len(b), "Write count in range")
 		vAssert(len(c.writeBuf) <= 5+16384+256+len(b), "writeBuf bounded")
 		if err != nil {
+			// a caller that keeps writing after the failure does not make the Conn grow
+			held := len(c.writeBuf)
+			for j := 0; j < 2; j++ {
+				_, err2 := c.Write([]byte{1, 2, 3})
+				vAssert(err2 != nil, "a Conn whose backend stream was refused keeps refusing")
+			}
+			vAssert(len(c.writeBuf) <= held+8, "writes after a failure are not accumulated")
 			vReach("write-error")
 			return
 		}
@@ -243,6 +269,7 @@ func verifC08InnerRaw() {
 	if err != nil {
 		vReach("inner-refused")
 		vAssert(len(tr.out) == 7 && tr.closed, "a refused inner hello is answered with one alert and end of stream")
+		vC08Refused(c)
 		return
 	}
 	vReach("inner-ok")
